@@ -235,7 +235,9 @@ fn check_inject(c: &InjectCase, st: &mut Stats) -> Verdict {
         let bad = ["key: [unclosed", "a: b: c: [", "- just\n- a list", "\"unterminated: 1", "k: {a: 1"][c.variant as usize % 5];
         let fm = format!("---\n{bad}\n---\n");
         let len = fm.len();
-        (format!("{fm}{base}"), (0usize, len))
+        // blank lines (or a byte order mark on a line of its own) may come before the opening fence
+        let lead = ["", "\n", "\n\n\n\n\n\n", "\u{feff}\n", "  \n \n\n"][c.variant as usize / 5 % 5];
+        (format!("{lead}{fm}{base}"), (lead.len(), lead.len() + len))
     } else {
         let mut points = vec![body_start];
         let bytes = base.as_bytes();
@@ -295,7 +297,7 @@ fn check_inject(c: &InjectCase, st: &mut Stats) -> Verdict {
         let placed = errs.iter().any(|d| {
             if inj.whole_file {
                 // serde_yaml does not always give a location: a label, if present, lies in the front matter
-                d.labels.first().map_or(true, |(s, _)| s.end() <= range.1)
+                d.labels.first().map_or(true, |(s, _)| s.start() >= range.0 && s.end() <= range.1)
             } else {
                 d.labels.first().is_some_and(|(s, _)| touches(*s, range.0, range.1))
             }
